@@ -1,9 +1,9 @@
 (** * C01 - at most one daemon pod per node, and only on eligible nodes.
     Property theorems only; each is closed by [exact] of a lemma of [Proofs/]. *)
-From Coq Require Import List ZArith Bool.
+From Coq Require Import List ZArith Bool Permutation.
 From EDS Require Import Model.Objects Model.Fitness Model.PodSpec Model.Backoff Model.Filter Model.Default
      Model.Rolling Model.Canary Model.ErsReconcile
-     Proofs.Lists Proofs.SyncInv Proofs.FilterProofs Proofs.C01Proofs.
+     Proofs.Lists Proofs.SyncInv Proofs.FilterProofs Proofs.C01Proofs Proofs.FitnessProofs.
 Import ListNotations.
 Open Scope Z_scope.
 
@@ -82,3 +82,17 @@ Theorem C01_unknown_phase_untouched : forall sn ch pl pn,
             (forall e, sn_eds sn = Some e -> own_pod e p).
 Proof. exact deleted_pods_are_listed_not_unknown. Qed.
 Print Assumptions C01_unknown_phase_untouched.
+
+(** Eligibility and taints: one untolerated NoSchedule / NoExecute taint makes the node unfit wherever it stands in the
+    node's taint list and whatever the other taints are (a tolerated taint after it does not make up for it) ... *)
+Theorem C01_untolerated_taint_excludes : forall t tols n ta,
+  In ta (n_taints n) -> taint_counts ta = true -> (forall tol, In tol tols -> tolerates tol ta = false) ->
+  fit_tols t tols n = false.
+Proof. exact untolerated_taint_excludes. Qed.
+Print Assumptions C01_untolerated_taint_excludes.
+
+(** ... and the verdict does not depend on the order of the taints or of the tolerations *)
+Theorem C01_taint_order_irrelevant : forall tols tols' tas tas',
+  Permutation tas tas' -> Permutation tols tols' -> tolerates_taints tols tas = tolerates_taints tols' tas'.
+Proof. exact taint_order_irrelevant. Qed.
+Print Assumptions C01_taint_order_irrelevant.
